@@ -96,12 +96,14 @@ def parseHop (s : String) : Option Inject.Op :=
   match s.splitOn ":" with
   | ["S", k, v] => some (.setHeader (unhexD k) (unhexD v))
   | ["A", k, v] => some (.addHeader (unhexD k) (unhexD v))
+  | ["D", k] => some (.delHeader (unhexD k))
   | ["H", c] => some (.writeHeader (Int.ofNat (natD c)))
   | ["W", d] => some (.write (unhexD d))
   | _ => none
 
 def showEv : Inject.Ev → String
   | .head c h => s!"head:{c}:{canonHeader (h.filter (fun p => p.1 != "Date".toUTF8.toList))}"
+  | .interim c h => s!"interim:{c}:{canonHeader (h.filter (fun p => p.1 != "Date".toUTF8.toList))}"
   | .body b => if b == pageMarker then "body:PAGE" else "body:" ++ hexOf b
 
 /-- suite `banner`: `banner <method> <accept|-> <framed> <ops>` ↦ events at the outer writer -/
